@@ -39,7 +39,10 @@ void abort(void)
 void exit(int status)
 {
     DYN_GHOST(__verif_dyn.exited = 1; __verif_dyn.exit_status = status);
-    DYN_ABORT_COVER();
+    /* exit(1) is reached only by the out-of-range branches of get_struct/set_struct: cover it where the registry says so */
+#ifdef VERIF_EXIT_COVER
+    VERIF_COVER(1 /* exit(1) path reachable */);
+#endif
     __CPROVER_assume(0);
 }
 
@@ -122,7 +125,9 @@ void h_pop(void)
     DYN_POP_T r = DYN_F_POP(arr, success);
     (void)r;
     VERIF_COVER(1 /* pop returned */);
+#ifndef VERIF_C08
     VERIF_COVER(success == NULL);
+#endif
     VERIF_COVER(success != NULL);
 }
 #endif /* DYN_TYPED */
@@ -246,7 +251,9 @@ void h_pop_struct(void)
     WIT(in_success_null = nondet_u8(); success = in_success_null ? NULL : malloc(sizeof(bool)); __CPROVER_assume(in_success_null || success);)
     dyn_array_pop_struct(arr, out, ssz, success);
     COVER_NZ(1 /* pop_struct returned */);
+#ifndef VERIF_C08
     COVER_NZ(success == NULL);
+#endif
     COVER_NZ(success != NULL);
 }
 #endif
